@@ -279,8 +279,28 @@ func main() {
 	cexN := 0
 	nSkipped := 0
 	replayedRun := map[*ObRun]bool{}
+	nativeFallbacks := map[string]int{}
 	reachUnknown := 0
 	nReplayed := 0
+	// an inconclusive run (solver unknown, untranslatable operation, engine limit or error): run the harness
+	// natively on structured special inputs; a failure of its end-to-end assertions is a replayed violation
+	nativeFallback := func(r *ObRun) {
+		if *noReplay || r.UsedGhost || nativeFallbacks[r.Dir.Func] >= 2 || len(violations) > 0 {
+			return
+		}
+		nativeFallbacks[r.Dir.Func]++
+		pseudo := &Oblig{Name: "end-to-end assertions of the harness on structured special inputs (native search after an inconclusive symbolic run)", Kind: "assert", Hyp: TrueT, Goal: TrueT, Model: map[string]*big.Int{}, Solver: "native-structured-search", Concrete: true}
+		cexN++
+		path := filepath.Join(outDir, fmt.Sprintf("cex_%d.json", cexN))
+		cx := writeCex(path, *prop, r, pseudo)
+		cx.Ghost = false
+		if rr := replayNative(cx, path, nativeSearch); rr.Status == "reproduced" {
+			violations = append(violations, fmt.Sprintf("VIOLATION property=%s replay=%s obligation=%q backend=%s replay=reproduced(%s)", *prop, path, r.Name+" :: "+pseudo.Name, pseudo.Solver, rr.Detail))
+		} else {
+			os.Remove(path)
+			cexN--
+		}
+	}
 	for _, r := range runs {
 		for k, v := range r.Encoded {
 			encoded[r.Ld.config+":"+shortName(k)] = v
@@ -292,6 +312,7 @@ func main() {
 			nOb++
 			nInc++
 			inconcl = append(inconcl, fmt.Sprintf("obligation=%s reason=engine: %s", r.Name, r.Err))
+			nativeFallback(r)
 			continue
 		}
 		allOK := true
@@ -384,6 +405,15 @@ func main() {
 		}
 		if allOK && r.Proved != "" {
 			contractsProved[r.Ld.config+":"+r.Proved] = true
+		}
+		runInc := false
+		for _, ob := range r.Obs {
+			if ob.Verdict == "inconclusive" && ob.Kind != "reach" {
+				runInc = true
+			}
+		}
+		if runInc && !runRefuted {
+			nativeFallback(r)
 		}
 	}
 	seenKF := map[string]bool{}
